@@ -45,7 +45,7 @@ Inductive costatus := CoInit (f : value) | CoSusp | CoRun | CoNorm | CoDead.
 (* deviation switches: with all off this is the Lua 5.1 reference; each switch reproduces one
    listed known finding of gopher-lua so that the same evaluator serves as impl model. *)
 Record devs := mkDevs {
-  dv_errlevel : bool;      (* error(msg, k>=2) reports level k-1 *)
+  dv_handler_err : bool;   (* an error inside xpcall's message handler: its value is delivered (5.1: "error in error handling") *)
   dv_localfunc : bool;     (* local f = function ... f ... end sees itself *)
   dv_wrap_noprefix : bool; (* errors through coroutine.wrap are not re-positioned *)
   dv_fault_string : bool;  (* kind of the injected fault: false = the number -777 raised as is, true = a positioned string *)
